@@ -16,7 +16,7 @@ def run(rep, tier, seed, replay):
                         "migrations of one slot inside one redirect hop would let a stale ASKING execute on the wrong node); the harness generates none",
                         "steps inside a redirect chain are exercised at ASK time for single-key requests only (for multi-key requests the firing child would depend on timing)",
                         "failover: the replica holds the same data (synchronous replication assumed); requests that meet the dead node before the refresh may answer a connection error",
-                        "the ASKING/command pair is two sends: other traffic between them only costs extra hops (background-traffic cases); not enumerated"]
+                        "ASKING and the command it announces are enqueued together since fix 97232ec; the model's redirect chain is atomic per hop"]
     pr = vlib.prove(rep, PROP)
     vlib.prepare_runners()
     rc = [json.load(open(replay))["case"]["line"]] if replay else None
